@@ -23,7 +23,9 @@ ASSUMPTIONS = ["rows whose node probability is within 1e-9 of the threshold may 
                "probabilities compared with atol 1e-9 (node classifiers are re-evaluated on the whole batch)"]
 
 DATA = ["separable", "xor", "rings", "imbalanced", "duplicates", "one-feature"]
-LABELS = [("01", [0, 1]), ("-11", [-1, 1]), ("37", [3, 7]), ("str", ["a", "b"]), ("float", [0.5, 2.5])]
+LABELS = [("01", [0, 1]), ("-11", [-1, 1]), ("37", [3, 7]), ("str", ["a", "b"]), ("float", [0.5, 2.5]),
+          ("str-unequal-length", ["no", "yes"]), ("str-long-second", ["setosa", "versicolor"]),
+          ("bool", [False, True])]
 TOL = 1e-9
 
 
@@ -288,6 +290,35 @@ def run_case(case, ctx):
         if not set(pred.tolist()) <= set(classes):
             ctx.violation(K + "predict/label-outside-classes", "predict returned %r" % (sorted(set(pred.tolist())),),
                           cfg=cfg)
+    # ---- history: a fit that validation refuses (X given as a list of rows, weights given as a list) leaves a fitted
+    # object as it was: same node count, same paths, same probabilities
+    if not case.get("_refit"):
+        try:
+            n0 = m.n_nodes_
+            P0 = numpy.asarray(m.predict_proba(X[:12]), dtype=float)
+            D0 = numpy.asarray(m.decision_path(X[:12]).todense())
+            refused = 0
+            for bad in ((lambda: m.fit(X.tolist(), y)), (lambda: m.fit(X, y, sample_weight=[1.0] * len(X))),
+                        (lambda: m.fit(X, numpy.arange(len(X))))):
+                try:
+                    bad()
+                except Exception:
+                    refused += 1
+            if refused == 3:
+                ctx.hit("refused_fit.state_kept")
+                ok_ = (m.n_nodes_ == n0 and numpy.array_equal(numpy.asarray(m.decision_path(X[:12]).todense()), D0)
+                       and numpy.allclose(numpy.asarray(m.predict_proba(X[:12]), dtype=float), P0, rtol=0, atol=0,
+                                          equal_nan=True))
+                if not ok_:
+                    ctx.violation(K + "refused-fit/fitted-state-changed", "after fits that validation refused, n_nodes_ "
+                                  "(%r -> %r), decision_path or predict_proba changed" % (n0, m.n_nodes_), cfg=cfg)
+            else:
+                ctx.excluded("refused-fit history: one of the invalid calls was accepted")
+                return
+        except Exception as e:
+            ctx.violation(K + "refused-fit/raised/%s" % type(e).__name__, "after fits that validation refused: %s" % (
+                str(e)[:120]), cfg=cfg)
+            return
     if not case.get("_refit"):
         # history on one object: query the structure, refit with the two labels swapped (a mirrored tree, often
         # with the same n_nodes_), and run every clause again on the refitted object
